@@ -31,7 +31,9 @@ func (node *tagIfchangedNode) state(ctx *ExecutionContext) *tagIfchangedState {
 func (node *tagIfchangedNode) Execute(ctx *ExecutionContext, writer TemplateWriter) *Error {
 	st := node.state(ctx)
 	if len(node.watchedExpr) == 0 {
-		// Check against own rendered body
+		// Check against own rendered body. What was rendered last time is read before the
+		// body runs: the body may reach this very tag again (a macro that calls itself).
+		lastContent := st.lastContent
 
 		buf := bytes.NewBuffer(make([]byte, 0, 1024)) // 1 KiB
 		err := node.thenWrapper.Execute(ctx, buf)
@@ -40,12 +42,13 @@ func (node *tagIfchangedNode) Execute(ctx *ExecutionContext, writer TemplateWrit
 		}
 
 		bufBytes := buf.Bytes()
-		if !bytes.Equal(st.lastContent, bufBytes) {
+		if !bytes.Equal(lastContent, bufBytes) {
 			// Rendered content changed, output it
 			writer.Write(bufBytes)
 			st.lastContent = bufBytes
 		}
 	} else {
+		lastValues := st.lastValues // (read before the expressions run, for the same reason)
 		nowValues := make([]*Value, 0, len(node.watchedExpr))
 		for _, expr := range node.watchedExpr {
 			val, err := expr.Evaluate(ctx)
@@ -56,9 +59,9 @@ func (node *tagIfchangedNode) Execute(ctx *ExecutionContext, writer TemplateWrit
 		}
 
 		// Compare old to new values now
-		changed := len(st.lastValues) == 0
+		changed := len(lastValues) == 0
 
-		for idx, oldVal := range st.lastValues {
+		for idx, oldVal := range lastValues {
 			if !oldVal.EqualValueTo(nowValues[idx]) {
 				changed = true
 				break // we can stop here because ONE value changed
